@@ -771,6 +771,9 @@ func (g *Gen) findFunc(pkgPath, name string) *ssa.Function {
 }
 
 func hasProp(props []string, p string) bool {
+	if p == "ALL" {
+		return true // every obligation of every function under contract (mutation campaigns, audits; not a registered check)
+	}
 	for _, q := range props {
 		if q == p {
 			return true
